@@ -307,12 +307,12 @@ def tokVal (env : Env) : Val → Val
   | .ident n => rootVal env n
   | v => v
 
-theorem popV_tok (env : Env) (t : Val) (st : List SVal) (log : Log)
+theorem popV_tok (env : Env) (htr : env.trackUnres = false) (t : Val) (st : List SVal) (log : Log)
     (ht : (∃ r, t = .ident r ∧ env.getProg r = none) ∨ (∀ s, t ≠ .ident s)) :
     popV rec env { stack := .val t :: st, log := log } = .ok (tokVal env t) { stack := st, log := log } := by
   rcases ht with ⟨r, rfl, hp⟩ | hni
   · unfold popV popS
-    simp only [tokVal, rootVal, hp]
+    simp only [tokVal, rootVal, hp, markUnres_untracked htr]
     cases h1 : env.getType r with
     | some ty => rfl
     | none =>
@@ -330,7 +330,7 @@ theorem getElem?_at1 (pre : List Instr) (x y : Instr) (rest : List Instr) :
   rw [List.getElem?_append_right (by omega)]; simp
 
 /-- `PUSH f; ACCESS` on a stack holding one token: the field of what the token denotes. -/
-theorem access_steps (env : Env) (hb : env.hasBinds = true) (pre rest : List Instr) (f : Str) (t : Val)
+theorem access_steps (env : Env) (hb : env.hasBinds = true) (htr : env.trackUnres = false) (pre rest : List Instr) (f : Str) (t : Val)
     (fuel : Nat) (log : Log) (hc : env.callable B f = none)
     (ht : (∃ r, t = .ident r ∧ env.getProg r = none) ∨ (∀ s, t ≠ .ident s)) :
     loop B rec recTop env (pre ++ .push (.ident f) :: .access :: rest) (fuel + 2) pre.length
@@ -344,21 +344,21 @@ theorem access_steps (env : Env) (hb : env.hasBinds = true) (pre rest : List Ins
   rw [loop]
   simp only [getElem?_at1]
   rw [step]
-  simp only [popRaw, popV_tok env t [] log ht]
+  simp only [popRaw, popV_tok env htr t [] log ht]
   cases hv : tokVal env t with
   | map m =>
     simp only [field]
     cases Map.get m f with
     | some v => rfl
-    | none => simp only [hc]; rfl
+    | none => simp only [hc, markUnres_untracked htr]; rfl
   | err k => simp [field, hb, hc, Val.isErr, pushV]
-  | _ => simp [field, hb, hc, Val.isErr, pushV]
+  | _ => simp [field, hb, hc, Val.isErr, pushV, markUnres_untracked htr]
 
 def endTok (env : Env) : Val → List Str → Val
   | t, [] => t
   | t, f :: fs => endTok env (field (tokVal env t) f) fs
 
-theorem run_fields (env : Env) (hb : env.hasBinds = true) :
+theorem run_fields (env : Env) (hb : env.hasBinds = true) (htr : env.trackUnres = false) :
     ∀ (fs : List Str) (pre : List Instr) (t : Val) (fuel : Nat) (log : Log),
       2 * fs.length ≤ fuel → (∀ f ∈ fs, env.callable B f = none) →
       ((∃ r, t = .ident r ∧ env.getProg r = none) ∨ (∀ s, t ≠ .ident s)) → PathOk (tokVal env t) fs →
@@ -373,13 +373,13 @@ theorem run_fields (env : Env) (hb : env.hasBinds = true) :
     obtain ⟨n, rfl⟩ : ∃ n, fuel = n + 2 := ⟨fuel - 2, by simp at hf; omega⟩
     have hcode : pre ++ fieldsCode (f :: fs) = pre ++ .push (.ident f) :: .access :: fieldsCode fs := by
       simp [fieldsCode]
-    rw [hcode, access_steps env hb pre (fieldsCode fs) f t n log (hc f (by simp)) ht]
+    rw [hcode, access_steps env hb htr pre (fieldsCode fs) f t n log (hc f (by simp)) ht]
     have hcode' : pre ++ .push (.ident f) :: .access :: fieldsCode fs =
         (pre ++ [.push (.ident f), .access]) ++ fieldsCode fs := by simp
     have hlen : pre.length + 2 = (pre ++ [Instr.push (.ident f), Instr.access]).length := by simp
     rw [hcode', hlen]
     have hni : ∀ s, field (tokVal env t) f ≠ .ident s := hok.1
-    have := run_fields env hb fs (pre ++ [.push (.ident f), .access]) (field (tokVal env t) f) n log
+    have := run_fields env hb htr fs (pre ++ [.push (.ident f), .access]) (field (tokVal env t) f) n log
       (by simp at hf; omega) (fun g hg => hc g (by simp [hg])) (.inr hni)
       (by
         have : tokVal env (field (tokVal env t) f) = field (tokVal env t) f := by
@@ -417,16 +417,18 @@ theorem endTok_tok (env : Env) (r : Str) (hp : env.getProg r = none) : ∀ (fs :
 
 /-- **A field path evaluates to what the data says.**  For a root that is not a stored program, field
     names that are not function or macro names, and data without identifier values, at any depth budget
-    ≥ 1: the outcome is the value of the path, a failing value being the failure; the call log is untouched. -/
+    ≥ 1: the outcome is the value of the path, a failing value being the failure; the call log is untouched.
+    (`htr`: a run-time environment — every interpreter but the one of the compiler's `check_for_const`, whose
+    log also records that a name was not resolved, `markUnres`.) -/
 theorem path_eval (b : Nat) (env : Env) (r : Str) (fs : List Str) (log : Log)
-    (hb : env.hasBinds = true) (hp : env.getProg r = none)
+    (hb : env.hasBinds = true) (htr : env.trackUnres = false) (hp : env.getProg r = none)
     (hc : ∀ f ∈ fs, env.callable B f = none) (hok : PathOk (rootVal env r) fs) :
     runAt B (b + 1) env (pathCode r fs) true log =
       { res := (match readPath env r fs with
                 | .err k => .error (.err k)
                 | v => .ok v),
         log := log } := by
-  have hrun := run_fields (B := B) (recTop := runFresh B) (rec := runAt B b) env hb fs [.push (.ident r)]
+  have hrun := run_fields (B := B) (recTop := runFresh B) (rec := runAt B b) env hb htr fs [.push (.ident r)]
     (.ident r) (blockFuel (pathCode r fs) - 1) log
     (by simp only [blockFuel, pathCode, List.length_cons, fieldsCode_length]; omega) hc (.inl ⟨r, rfl, hp⟩) hok
   have hfirst : loop B (runAt B b) (runFresh B) env (pathCode r fs) (blockFuel (pathCode r fs)) 0
@@ -446,7 +448,7 @@ theorem path_eval (b : Nat) (env : Env) (r : Str) (fs : List Str) (log : Log)
   simp only [if_true]
   have hpop : popS (runAt B b) env { stack := [.val (endTok env (.ident r) fs)], log := log } =
       .ok (.val (tokVal env (endTok env (.ident r) fs))) { stack := [], log := log } := by
-    have := popV_tok (rec := runAt B b) env (endTok env (.ident r) fs) [] log ht
+    have := popV_tok (rec := runAt B b) env htr (endTok env (.ident r) fs) [] log ht
     unfold popV at this
     split at this
     · rename_i v s' h; cases this; exact h
@@ -461,7 +463,7 @@ theorem path_eval (b : Nat) (env : Env) (r : Str) (fs : List Str) (log : Log)
 /-- **`has(path)`** on the VM model: `true` when the path has a value, `false` when the root is unbound
     or a field is missing, the failure itself when an intermediate value had already failed otherwise. -/
 theorem has_path (b : Nat) (env : Env) (this : Val) (r : Str) (fs : List Str) (log : Log)
-    (hb : env.hasBinds = true) (hp : env.getProg r = none)
+    (hb : env.hasBinds = true) (htr : env.trackUnres = false) (hp : env.getProg r = none)
     (hc : ∀ f ∈ fs, env.callable B f = none) (hok : PathOk (rootVal env r) fs) :
     callMacro (runAt B (b + 1)) recTop env "has".toList this [pathCode r fs] log =
       ((match readPath env r fs with
@@ -469,7 +471,7 @@ theorem has_path (b : Nat) (env : Env) (this : Val) (r : Str) (fs : List Str) (l
         | .err .attribute => .bool false
         | .err k => .err k
         | _ => .bool true), log) := by
-  rw [has_spec, path_eval b env r fs log hb hp hc hok]
+  rw [has_spec, path_eval b env r fs log hb htr hp hc hok]
   cases readPath env r fs with
   | err k => cases k <;> rfl
   | _ => rfl
